@@ -477,7 +477,9 @@ func (e *Engine) step(st *State) {
 			return
 		}
 	case *ssa.Go:
-		unsupported("go statement in %s", fr.fn)
+		// the spawned goroutine is not executed: its effects are not part of this function's
+		// sequential contract (whatever it writes later is interference, not a postcondition)
+		e.Notes = append(e.Notes, fmt.Sprintf("go statement at %s: goroutine body not executed", e.pos(x.Pos())))
 	case *ssa.Send, *ssa.Select, *ssa.MakeChan:
 		unsupported("channel operation in %s", fr.fn)
 	case *ssa.Panic:
